@@ -399,7 +399,12 @@ pub fn k7(dir: &str, thorough: bool, seed: u64) {
                         if k == 0 && rng.chance(4, 5) {
                             spec2.hybops.clear();
                         }
-                        let t = rand_tree(&mut rng, &spec2, size, &mut Vec::new(), true);
+                        let t = if k >= 2 && rng.chance(1, 5) {
+                            // duplicates over two variables with swapped / shifted roles
+                            swapped_duplicates(&mut rng, &spec, k >= 3)
+                        } else {
+                            rand_tree(&mut rng, &spec2, size, &mut Vec::new(), true)
+                        };
                         formulas.push(t.to_string());
                     }
                     let ctx = if ext { rand_ctx(&mut rng, &xg, &["p", "q", "d", "e"]) } else { Ctx::new() };
